@@ -694,7 +694,7 @@ fn op_strategy() -> impl Strategy<Value = Op> {
     ]
 }
 
-fn case_strategy() -> impl Strategy<Value = Case> {
+pub fn case_strategy() -> impl Strategy<Value = Case> {
     (
         prop::collection::vec(op_strategy(), 0..40),
         prop::collection::vec(any::<u16>(), 0..24),
@@ -713,7 +713,7 @@ fn top_strategy() -> impl Strategy<Value = TOp> {
     ]
 }
 
-fn tcase_strategy() -> impl Strategy<Value = TCase> {
+pub fn tcase_strategy() -> impl Strategy<Value = TCase> {
     (
         2u8..9,
         1u8..4,
